@@ -803,6 +803,10 @@ class Engine:
         for path in list(self.process_paths.keys()):
             if starts_with(path, deletion):
                 del self.process_paths[path]
+                # The schedule of the deleted process goes with it: a
+                # process created at the same path later in this batch
+                # must not inherit its due time and its update in flight.
+                self.front.pop(path, None)
 
         for path in list(self._step_paths):
             if starts_with(path, deletion):
